@@ -324,6 +324,21 @@ example : validInputsB "0" [brickA, brickB] = true ∧ endAtB 13 [brickA, brickB
     StartAt 0 [brickA, brickB] ∧ passesSufficeB witnessDeps [brickA, brickB] true = false := by
   decide +kernel
 
+/-- Translation by a real epoch time (1.7e18 ns > 2^53): the model computes in unbounded `Int`, so the
+shifted inputs give exactly the shifted calls / the same error — here on the ordinary witness and on the
+brick pattern.  (General statement, not proved: for valid inputs and `0 ≤ d`,
+`iterModel deps (chunks.map (·.map (shiftChunk d))) strict = (iterModel deps chunks strict).map (·.map (shiftCall d))`;
+it needs translation invariance of the whole chunk model — `split_array` starts from `latest_end_seen = -1`
+and the constructor rejects negative starts, hence the sign condition.  The correspondence component
+`iter/epoch-scale` compares the real code with the model at these times.) -/
+example :
+    iterModel witnessDeps [plainA.map (shiftChunk epochT0), plainB.map (shiftChunk epochT0)] true
+      = (match iterModel witnessDeps [plainA, plainB] true with
+         | .ok calls => .ok (calls.map (shiftCall epochT0))
+         | .error e => .error e) ∧
+    iterModel witnessDeps [brickA.map (shiftChunk epochT0), brickB.map (shiftChunk epochT0)] true
+      = .error .runtimeError := by decide +kernel
+
 /-- strict policy, a row of `b` straddles the chunk boundary of `a`: two calls, everything delivered -/
 example :
     (iterRun witnessDeps [plainA, plainB] true).toOption.map (fun r => r.calls.map (fun c => (c.start, c.stop)))
